@@ -464,6 +464,8 @@ Definition mw_of_wire (w : mw_wire) : memwal :=
   match w with
   | ((r, g), (mt, wal), es, (st, own, luv)) => MkMemWal r g mt wal es (wstate_of_N st) own luv
   end.
+(* constructor-style printers used by the harness (cheaper to elaborate than nested pairs) *)
+Definition W (r g mt wal : N) (es : list N) (st own luv : N) : mw_wire := ((r, g), (mt, wal), es, (st, own, luv)).
 Definition mws (l : list mw_wire) : list memwal := map mw_of_wire l.
 Definition mwl_eqb (a b : list memwal) : bool := list_eqb memwal_eqb a b.
 Definition count_mw (m : memwal) (l : list memwal) : nat := length (filter (memwal_eqb m) l).
@@ -486,6 +488,8 @@ Definition txn_of_wire (w : txn_wire) : txn :=
   | (1, (a, _, _)) => TUpdate (match a with m :: _ => Some (mw_of_wire m) | [] => None end)
   | (k, _) => TOther (okind_of_N (k - 2))
   end.
+
+Definition TX (k : N) (a u r : list mw_wire) : txn_wire := (k, (a, u, r)).
 
 (* removed lists are compared up to order (trim iterates a HashMap) *)
 Definition txn_eqb (a b : txn) : bool :=
